@@ -25,6 +25,8 @@ type gen struct {
 	smallX []*pt // on-curve points with tiny x (so that x+p fits in 32 bytes)
 	smallY []*pt // on-curve points with tiny y
 	nonRes []int64
+	highX  []*pt    // on-curve points with n <= x < p (highx.go)
+	twins  [][2]*pt // pairs of on-curve points with x and x+n
 }
 
 var two256 = new(big.Int).Lsh(big1, 256)
@@ -57,12 +59,14 @@ func newGen(g *vlib.Rng) *gen {
 			}
 		}
 	}
+	ge.highX = highXTable()
+	ge.twins = twinTable()
 	return ge
 }
 
 // with returns a generator sharing the precomputed tables but drawing from its own PRNG.
 func (ge *gen) with(g *vlib.Rng) *gen {
-	return &gen{g: g, smallX: ge.smallX, smallY: ge.smallY, nonRes: ge.nonRes}
+	return &gen{g: g, smallX: ge.smallX, smallY: ge.smallY, nonRes: ge.nonRes, highX: ge.highX, twins: ge.twins}
 }
 
 // make draws one case of the given kind.
@@ -88,6 +92,8 @@ func (ge *gen) make(kind string, oracle bool) Case {
 		return ge.psig(oracle)
 	case "nonce":
 		return ge.nonce(oracle)
+	case "recov":
+		return ge.recov(oracle)
 	default:
 		return ge.hmac(oracle)
 	}
@@ -241,6 +247,9 @@ func forgeOwn(x, y []byte) (sig, msg []byte, ok bool) {
 
 func (ge *gen) ecdsa(oracle bool) Case {
 	g := ge.g
+	if g.Intn(7) == 0 { // nonce points with x >= n (highx.go)
+		return ge.ecdsaHighX(g.Intn(8), oracle)
+	}
 	d := ge.scalar()
 	Q := refMul(d, refG())
 	format := g.Intn(3)
